@@ -147,3 +147,59 @@ CHECKS["C16"] = NS(
         "thorough": [("weights", 8, {"n": 15000}), ("layers", 4, {"n": 8000}), ("calib", 4, {"n": 5000})],
     },
 )
+
+CHECKS["C05"] = NS(
+    MODULE="c05_ops",
+    LEVEL="exploration",
+    LEVEL_TEXT=(
+        "Model-based testing of operation sequences: Hypothesis draws programs (1-3 quantized/plain sources, then 1-8 "
+        "(quick) / 1-12 (thorough) steps from ~50 intercepted and ~35 pass-through operations) that an interpreter "
+        "resolves against a pool of values; every step is compared with the same op on the CURRENT dequantized operands "
+        "(exact / rounding / one output step / accumulation bound by operation class), any exception on a float-valid "
+        "step is a violation unless documented, and a frame condition (driven by a float twin that models aliasing) "
+        "checks that bystander values do not change. Exploration of an unbounded program space."
+    ),
+    LEVEL_NOTE="trusts torch's float kernels as the reference semantics and float64 for contraction bounds; operand validity is decided by running the float program first",
+    TECHNIQUE=PBT + "stateful/model-based generation of operation sequences, per-step differential oracle against the float op, frame-condition invariant",
+    RULE=(
+        "Hypothesis programs: sources {per-tensor QBytes (3 qtypes x absmax/saturating/coarse/arbitrary scale), per-axis QBytes, "
+        "QBits (int2/int4, grouped or not), plain} x dtype, ranks 1-4 dims 1-5; steps drawn from the op tables with integer "
+        "selectors resolved at run time; partners (equal-scale companions, fresh quantized/plain operands) are constructed so "
+        "shapes match. Non-trivial: >= 2 executed steps, >= 1 step whose result is still quantized, >= 1 step consuming the result "
+        "of an earlier step. Distinct by the tuple of (op, operand kinds, result kind) per step."
+    ),
+    ASSUMPTIONS=[
+        "dtype moves target floating dtypes only; integer casts of a quantized tensor have no documented meaning",
+        "copy_ is generated for q<-q of equal qtype (the code asserts it) and plain<-q",
+        "steps whose float counterpart raises are discarded (float-invalid program), and view() must also be valid on a float twin with the size/stride the wrapper reports",
+        "whether a result is still quantized is never asserted: falling back to float is always allowed",
+    ],
+    PLAN={"quick": [("program", 16, {"n": 250, "max_steps": 8})], "thorough": [("program", 16, {"n": 8000, "max_steps": 12})]},
+)
+
+CHECKS["C06"] = NS(
+    MODULE="c06_meta",
+    LEVEL="exploration",
+    LEVEL_TEXT=(
+        "The structural invariant (shape/dtype/device equal to the dequantized value's, one code per element, packed payload "
+        "size, scale/zero-point laid along the declared axis or groups, qtype storage = payload dtype, flatten/unflatten "
+        "meta consistent) is evaluated on every quantized value produced anywhere in generated operation sequences (the C05 "
+        "machine), on freshly quantized tensors over generated configurations and their clone/detach/deepcopy/to/Parameter "
+        "copies, and on weights after freeze, state_dict round trips (pickle, weights_only, safetensors), deepcopy and "
+        "dtype/device moves of modules. Moves and copies must keep codes and metadata. Exploration."
+    ),
+    LEVEL_NOTE="trusts quanto's dequantize() as the denotation of a tensor (C01/C02 check that separately); CPU only",
+    TECHNIQUE=PBT + "stateful generation of operation sequences with a structural invariant checked after every step; round-trip oracles for copies and serialization",
+    RULE=(
+        "program: as C05 (invariant on every quantized source and result, per element of list results); config: row-class tensors x 6 "
+        "qtypes x axis x group sizes through quantize_weight/quantize_activation and five copy operations; module: Linear/Conv2d x "
+        "qtype x dtype x serializer x post-operation (deepcopy, to, to(dtype), assign-load), optionally channels_last. Non-trivial: "
+        "a checked tensor that is the result of an operation, a (de)serialization or a copy, i.e. programs with >= 2 steps incl. a "
+        "quantized result that is consumed again / configs other than plain rank-2 axis-0 / module cases with a serializer or post-op."
+    ),
+    ASSUMPTIONS=["real device moves are impossible here (CPU only): cpu->cpu copies and meta are exercised", "AWQ/Marlin subclasses are out of reach on CPU (C15 covers the AWQ layout)"],
+    PLAN={
+        "quick": [("program", 10, {"n": 300, "max_steps": 8}), ("config", 3, {"n": 400}), ("module", 3, {"n": 150})],
+        "thorough": [("program", 10, {"n": 8000, "max_steps": 12}), ("config", 3, {"n": 10000}), ("module", 3, {"n": 4000})],
+    },
+)
